@@ -564,10 +564,13 @@ Qed.
 (** ** Supplement: the inductive step that [get_or_create_table_cache_exact] was meant to express
 
     [cache_exact] is stated with [uncached_tables], which fails on a matching archetype that has no
-    table yet. Such archetypes exist between [create_archetype] and [create_table] (and stay after a
-    panic in between, see [wf_arch_norel_table]). So [cache_exact s] cannot hold in the pre-state of
-    the interesting case (a registered filter matches the new table's archetype), and the theorem
-    above is vacuous there. The invariant below uses the tolerant walk [k_selt] (matching archetypes
+    table yet. [St] admits such archetypes ([wf_arch_norel_table] only says "at most one table"); they
+    are the intermediate states inside createArchetype, between the archetype record
+    ([create_archetype_bare]) and its table. (Before the repair of createArchetype the table was left to
+    the following createTable, and a call rejected in between left such an archetype behind for good;
+    since the repair no reachable state has one: [archs_tabled_norel] of WF.v, StorageA, StorageD.)
+    So [cache_exact s] cannot hold in the pre-state of the interesting case (a registered filter
+    matches the new table's archetype, which has no table yet), and the theorem above is vacuous there. The invariant below uses the tolerant walk [k_selt] (matching archetypes
     without a table contribute nothing) and IS preserved in the interesting case: the new table is
     appended to exactly the matching entries, while it appears in the walk at the position of its
     archetype (hence equality up to permutation). When every archetype has a table the two
